@@ -1211,3 +1211,21 @@ Section Idem.
     zero_enc E fuel t = Ok z -> reenc E fuel t z = Ok z.
   Proof. apply (proj1 (idem_both fuel)). Qed.
 End Idem.
+
+(* ------------------------------------------------------------------------------------------ *)
+(* T4 (maps): the written keys are strictly increasing                                         *)
+(* ------------------------------------------------------------------------------------------ *)
+Theorem written_map_keys_sorted E fuel t j m :
+  reenc E fuel (TyMap t) j = Ok (TObj m) ->
+  StronglySorted (fun a b => bytes_ltb a b = true) (map fst m).
+Proof.
+  destruct fuel as [|f]; [discriminate|]. rewrite reenc_eq.
+  destruct j; try discriminate. intros H.
+  apply rbind_ok in H. destruct H as (m' & Hm & H). inversion H; subst m. apply rmap_ok in Hm.
+  assert (Keys : map fst m' = map fst (dedup_last m0)).
+  { clear H. induction Hm; cbn; auto.
+    apply rbind_ok in H. destruct H as (v & _ & Hv). inversion Hv; subst. cbn. congruence. }
+  apply sorted_strict; [apply sort_kv_sorted|].
+  eapply Permutation_NoDup; [apply Permutation_map; symmetry; apply sort_kv_perm|].
+  rewrite Keys. apply dedup_last_NoDup.
+Qed.
